@@ -32,6 +32,25 @@ Theorem C15_well_locked_serializable_sections : forall hs tr s,
 Proof. exact sections_serial. Qed.
 Print Assumptions C15_well_locked_serializable_sections.
 
+(* ... and for requests with one critical section each (Lock; Access*; Unlock -- what every
+   extracted handler is, obligation gen_handlers_one_section): every complete execution has the
+   same global access order as the SERIAL schedule that runs the requests one at a time, to
+   completion, in lock-acquisition order; that serial schedule is itself an execution *)
+Theorem C15_well_locked_serializable : forall hs tr s,
+  forallb one_section hs = true -> run (init hs) tr s -> finished s = true ->
+  exists pi s2,
+    NoDup pi /\ (forall k, In k pi -> k < length hs) /\
+    run (init hs) (serial_trace hs pi) s2 /\ finished s2 = true /\
+    accs (serial_trace hs pi) = accs tr.
+Proof. exact well_locked_serializable. Qed.
+Print Assumptions C15_well_locked_serializable.
+
+(* one-section requests are well-locked, so all theorems above apply to them *)
+Theorem C15_one_section_well_locked : forall hs,
+  forallb one_section hs = true -> forallb well_locked hs = true.
+Proof. exact forallb_one_section_wl. Qed.
+Print Assumptions C15_one_section_well_locked.
+
 (* "no request deadlocks": a reachable state in which some thread is unfinished always has an
    enabled step ... *)
 Theorem C15_no_deadlock : forall hs tr s,
@@ -55,10 +74,7 @@ Theorem C15_fetch_visible : forall f r n tr s k rest,
   run (init [fetch_system f r n]) tr s ->
   nth_error (thr s) (S (S k)) = Some (Access :: rest) ->
   ch s = CClosed /\ nth_error (thr s) 1 = Some [].
-Proof.
-  intros f r n tr s k rest Hf Hr Hrun. apply fetch_visible_state.
-  eapply binv_run; eauto. apply binv_init; auto.
-Qed.
+Proof. exact fetch_visible. Qed.
 Print Assumptions C15_fetch_visible.
 
 (* every reader at its wait either blocks (fetch in flight) or passes with the fetch complete *)
@@ -67,10 +83,7 @@ Theorem C15_fetch_wait : forall f r n tr s k rest,
   run (init [fetch_system f r n]) tr s ->
   nth_error (thr s) (S (S k)) = Some (Wait :: rest) ->
   (ch s = COpen /\ exec s (S (S k)) = None) \/ (ch s = CClosed /\ nth_error (thr s) 1 = Some []).
-Proof.
-  intros f r n tr s k rest Hf Hr Hrun. apply fetch_wait_state.
-  eapply binv_run; eauto. apply binv_init; auto.
-Qed.
+Proof. exact fetch_wait. Qed.
 Print Assumptions C15_fetch_wait.
 
 (* the rendezvous never gets stuck *)
@@ -78,10 +91,7 @@ Theorem C15_fetch_no_deadlock : forall f r n tr s,
   creator_pre (fetch_system f r 0) CNone = true -> reader_ok r = true ->
   run (init [fetch_system f r n]) tr s ->
   finished s = false -> exists i s', exec s i = Some s'.
-Proof.
-  intros f r n tr s Hf Hr Hrun. apply fetch_progress_state.
-  eapply binv_run; eauto. apply binv_init; auto.
-Qed.
+Proof. exact fetch_no_deadlock. Qed.
 Print Assumptions C15_fetch_no_deadlock.
 
 (* the shape the code had before the fix (channel created inside the goroutine) does NOT have
@@ -91,7 +101,7 @@ Theorem C15_fetch_refuted_when_channel_made_in_goroutine :
   exists sched s,
     run_sched (init [fetch_system [Spawn [ChanMake; Access; Signal]] [Wait; Access] 1]) sched = Some s /\
     nth_error (thr s) 2 = Some [Access] /\ nth_error (thr s) 1 = Some [ChanMake; Access; Signal].
-Proof. exists [0; 0; 2]. eexists. repeat split. Qed.
+Proof. exact fetch_refuted. Qed.
 Print Assumptions C15_fetch_refuted_when_channel_made_in_goroutine.
 
 (* hypotheses are satisfiable, and an unlocked access is really rejected *)
@@ -99,6 +109,7 @@ Example C15_example_well_locked :
   forallb well_locked [[Lock; Access; Access; Unlock]; []; [Lock; Spawn [Lock; Access; Unlock]; Unlock]] = true
   /\ well_locked [Access; Lock; Access; Unlock] = false
   /\ well_locked [Lock; Access; Unlock; Spawn [Access]] = false
+  /\ forallb one_section [[Lock; Access; Access; Unlock]; []; [Lock; Unlock]] = true
   /\ creator_pre (fetch_system [ChanMake; Spawn [Access; Signal]; Access] [Wait; Access] 0) CNone = true
   /\ fetch_obligation [Spawn [ChanMake; Access; Signal]] [Wait; Access] = false.
 Proof. repeat split. Qed.
